@@ -275,3 +275,109 @@ Proof.
   rewrite EA, EB, (dot_unit_row _ _ _ _ Hx Li), (dot_unit_row _ _ _ _ Hy Lj).
   unfold dynid_A_entry, dynid_B_entry. lia.
 Qed.
+
+(* ================================================================== *)
+(* The system vector is closed under "one period later, up to the maximum lead", so the list.index
+   call of _create_dynid_matrices never fails: for EVERY set of tokens the dynamic identities exist *)
+
+Lemma in_zrange a b k : In k (zrange a b) <-> (a <= k < b)%Z.
+Proof.
+  unfold zrange. rewrite in_map_iff. split.
+  - intros (i & <- & Hi). apply in_seq in Hi. lia.
+  - intros H. exists (Z.to_nat (k - a)). split; [lia|]. apply in_seq. lia.
+Qed.
+
+Lemma in_dedup_nat x l : In x (dedup_nat l) <-> In x l.
+Proof.
+  induction l as [|y l IH]; simpl; [tauto|].
+  destruct (existsb (Nat.eqb y) l) eqn:E.
+  - rewrite IH. split; [tauto|]. intros [->|H]; auto.
+    apply existsb_exists in E. destruct E as (z & Hz & Ez). apply Nat.eqb_eq in Ez. subst. exact Hz.
+  - simpl. rewrite IH. tauto.
+Qed.
+
+Lemma in_shifts_of q k l : In k (shifts_of q l) <-> In (q, k) l.
+Proof.
+  unfold shifts_of. rewrite in_map_iff. split.
+  - intros ([q' k'] & <- & H). apply filter_In in H. destruct H as [H E]. simpl in E. apply Nat.eqb_eq in E. subst. exact H.
+  - intro H. exists (q, k). split; auto. apply filter_In. split; auto. simpl. apply Nat.eqb_refl.
+Qed.
+
+Lemma fold_max_ge (l : list Z) (x : Z) : (x <= fold_left Z.max l x)%Z /\ forall y, In y l -> (y <= fold_left Z.max l x)%Z.
+Proof.
+  revert x. induction l as [|z l IH]; intro x; simpl; [split; [lia | tauto]|].
+  destruct (IH (Z.max x z)) as [A B]. split; [lia|]. intros y [->|H]; [lia | auto].
+Qed.
+
+Lemma fold_max_in (l : list Z) (x : Z) : fold_left Z.max l x = x \/ In (fold_left Z.max l x) l.
+Proof.
+  revert x. induction l as [|z l IH]; intro x; simpl; [auto|].
+  destruct (IH (Z.max x z)) as [E|H]; [|auto].
+  rewrite E. destruct (Z.max_spec x z) as [[_ ->]|[_ ->]]; auto.
+Qed.
+
+Lemma max_list_spec d l : l <> [] -> In (max_list d l) l /\ forall y, In y l -> (y <= max_list d l)%Z.
+Proof.
+  destruct l as [|x l]; [congruence|]. intros _. simpl.
+  destruct (fold_max_ge l x) as [A B]. split.
+  - destruct (fold_max_in l x) as [E|H]; [left; auto | right; auto].
+  - intros y [<-|H]; auto.
+Qed.
+
+Lemma in_insert_tok t t' l : In t' (insert_tok t l) <-> t' = t \/ In t' l.
+Proof.
+  induction l as [|x l IH]; simpl; [intuition|].
+  destruct (key_leb t x); simpl; [intuition|]. rewrite IH. intuition.
+Qed.
+
+Lemma in_sort_tokens t l : In t (sort_tokens l) <-> In t l.
+Proof.
+  unfold sort_tokens. induction l as [|x l IH]; simpl; [tauto|].
+  rewrite in_insert_tok, IH. intuition.
+Qed.
+
+Lemma in_create_vector toks q k :
+  In (q, k) (create_system_transition_vector toks) <->
+  In q (map fst toks) /\
+  (system_range_lo (system_min_shift_floor (min_shift q toks)) <= k < system_range_hi (max_shift q toks))%Z.
+Proof.
+  unfold create_system_transition_vector. rewrite in_flat_map. split.
+  - intros (q' & Hq & H). apply in_map_iff in H. destruct H as (k' & E & Hk). inversion E; subst.
+    apply (proj1 (in_dedup_nat _ _)) in Hq. apply (proj1 (in_zrange _ _ _)) in Hk. split; [exact Hq | exact Hk].
+  - intros [Hq Hk]. exists q. split; [apply (proj2 (in_dedup_nat _ _)); exact Hq|]. apply in_map_iff. exists k. split; [reflexivity|]. apply (proj2 (in_zrange _ _ _)). exact Hk.
+Qed.
+
+Lemma dynid_pairs_from_total vec rest : forall i,
+  (forall t, In t rest -> snd t <> max_shift (fst t) vec -> In (fst t, dynid_next_shift (snd t)) vec) ->
+  exists ps, dynid_pairs_from vec rest i = Some ps.
+Proof.
+  induction rest as [|t r IH]; intros i H; simpl; [eauto|].
+  destruct (IH (S i)) as [ps Hps]; [intros; apply H; simpl; auto|].
+  destruct (snd t =? max_shift (fst t) vec)%Z eqn:E; [eauto|].
+  apply Z.eqb_neq in E.
+  destruct (index_tok_in _ _ (H t (or_introl eq_refl) E)) as [j Hj].
+  rewrite Hj, Hps. eauto.
+Qed.
+
+Theorem system_vector_dynid_total (actual meas : list token) :
+  exists ps, dynid_pairs (system_vector actual meas) = Some ps.
+Proof.
+  unfold dynid_pairs. apply dynid_pairs_from_total.
+  set (toks := adjust_for_measurement actual meas).
+  set (vec := system_vector actual meas).
+  intros [q k] Hin Hmax. simpl in *.
+  assert (Hcv : forall q' k', In (q', k') vec <-> In (q', k') (create_system_transition_vector toks)).
+  { intros. unfold vec, system_vector. apply in_sort_tokens. }
+  apply Hcv in Hin. apply in_create_vector in Hin. destruct Hin as [Hq [Hlo Hhi]].
+  unfold system_range_hi in *.
+  (* the maximum shift of q inside the vector is the top of its range *)
+  assert (Htop : In (q, max_shift q toks) vec).
+  { apply Hcv. apply in_create_vector. split; auto. unfold system_range_hi. lia. }
+  assert (Hne : shifts_of q vec <> []).
+  { intro E. apply in_shifts_of in Htop. rewrite E in Htop. destruct Htop. }
+  destruct (max_list_spec 0%Z _ Hne) as [Min Mub]. fold (max_shift q vec) in Min, Mub.
+  assert (Mle : (max_shift q vec < max_shift q toks + 1)%Z).
+  { apply in_shifts_of in Min. apply Hcv in Min. apply in_create_vector in Min. unfold system_range_hi in Min. lia. }
+  assert (Mge : (max_shift q toks <= max_shift q vec)%Z) by (apply Mub; apply in_shifts_of; exact Htop).
+  apply Hcv. apply in_create_vector. split; auto. unfold dynid_next_shift, system_range_hi. lia.
+Qed.
